@@ -1,8 +1,672 @@
-//! C12 — not built yet.
+//! C12 — line/column mapping exact and history-independent (DESIGN §4 C12).
+//!
+//! One index instance (`LineIndex`, or the lazily built one inside `JsonIndex`
+//! / `YamlIndex`) answers a whole generated history of queries; every answer is
+//! compared with a stateless model (naive scan of the text into a plain
+//! `Vec<usize>` of line starts). The index keeps a one-entry cache of the last
+//! `to_line_column` lookup, so any dependence on earlier queries shows up as a
+//! disagreement with the model.
 use crate::engine::*;
+use serde_json::{json, Value};
+use succinctly::json::JsonIndex;
+use succinctly::text::LineIndex;
+use succinctly::yaml::YamlIndex;
 
-pub const RULE: &str = "not built";
+pub const RULE: &str = "texts over {a, space, LF, CR}: 0..=800 lines (thorough 20 000) of length 0..=12 (sometimes up to 300), break per line LF/CRLF/CR by style (one kind, or mixed), optional final break, leading breaks, raw CR/LF soups; line counts biased to 0,1,15..18,255..258,512. History (20..=90 queries) on ONE index instance: to_line_column at offsets chosen relative to the previous to_line_column query's line (same offset again, same line, +1..15 lines, +15/+16/+17, +18..200, backward, random, len-1/len/len+k, u32::MAX-1/u32::MAX/u32::MAX+1, usize::MAX), to_offset(line,col) incl. 0, last column, one past, past-the-end lines, huge values, round trips, line_start, line_count. Oracle: naive scan (a break at the very end starts no line). Routes: LineIndex, JsonIndex::{to_line_column,to_offset} on `[`+whitespace-form+`]`, YamlIndex on the comment-line form. Non-trivial: >=20 lines with both CRLF and lone CR and a history containing a 1..=15-line forward step, a >=17-line forward step and a backward step (relative to the previous to_line_column query); distinct by hash(text, queries).";
+
+// ---------------------------------------------------------------- model
+
+/// Line starts by the obvious forward scan: LF, lone CR and CRLF are each one
+/// break; a break is followed by a new line only if some text follows it.
+pub fn model_starts(text: &[u8]) -> Vec<usize> {
+    let mut starts = vec![0usize];
+    let n = text.len();
+    let mut i = 0usize;
+    while i < n {
+        let after = match text[i] {
+            b'\n' => i + 1,
+            b'\r' => {
+                if i + 1 < n && text[i + 1] == b'\n' {
+                    i + 2
+                } else {
+                    i + 1
+                }
+            }
+            _ => {
+                i += 1;
+                continue;
+            }
+        };
+        if after < n {
+            starts.push(after);
+        }
+        i = after;
+    }
+    starts
+}
+
+/// 0-based line of `off` = (number of starts <= off) - 1, by plain binary search on the Vec.
+fn model_line_of(starts: &[usize], off: usize) -> usize {
+    let mut lo = 0usize;
+    let mut hi = starts.len();
+    while lo < hi {
+        let mid = lo + (hi - lo) / 2;
+        if starts[mid] <= off {
+            lo = mid + 1;
+        } else {
+            hi = mid;
+        }
+    }
+    lo - 1
+}
+
+/// None when the (mathematical) column does not fit in usize.
+fn model_to_lc(starts: &[usize], off: usize) -> Option<(usize, usize)> {
+    let l = model_line_of(starts, off);
+    let col = (off - starts[l]).checked_add(1)?;
+    Some((l + 1, col))
+}
+
+fn model_to_offset(starts: &[usize], text_len: usize, line: usize, col: usize) -> Option<usize> {
+    if line == 0 || col == 0 || line > starts.len() {
+        return None;
+    }
+    // offset = start + col - 1 as a mathematical integer
+    let off = (starts[line - 1] as u128) + (col as u128) - 1;
+    if off < text_len as u128 {
+        Some(off as usize)
+    } else {
+        None
+    }
+}
+
+// ---------------------------------------------------------------- case
+
+#[derive(Clone, Debug, PartialEq)]
+pub enum Query {
+    ToLc(usize),
+    ToOff(usize, usize),
+    /// to_line_column(off) then to_offset of the answer (in-bounds offsets only)
+    RoundTrip(usize),
+    LineStart(usize),
+    LineCount,
+}
+
+#[derive(Clone, Copy, Debug, PartialEq)]
+pub enum Route {
+    Line,
+    Json,
+    Yaml,
+}
+
+pub struct Case {
+    pub text: Vec<u8>,
+    pub route: Route,
+    pub queries: Vec<Query>,
+    pub style: &'static str,
+    pub sweep: bool,
+}
+
+const LENS: [usize; 8] = [0, 1, 2, 3, 5, 8, 12, 0];
+
+fn gen_text(u: &mut Src, max_lines: usize) -> (Vec<u8>, &'static str) {
+    let style = u.below(8);
+    if style == 7 {
+        // raw soup over the alphabet, heavy on breaks
+        let n = u.len_biased(600, &[0, 1, 2, 3, 63, 64, 65]);
+        let raw = u.bytes(n.div_ceil(4));
+        let mut t = Vec::with_capacity(n);
+        for i in 0..n {
+            let b = (raw[i / 4] >> ((i % 4) * 2)) & 3;
+            t.push([b'\n', b'\r', b'a', b' '][b as usize]);
+        }
+        return (t, "soup");
+    }
+    let nlines = u.len_biased(max_lines, &[0, 1, 2, 15, 16, 17, 18, 19, 33, 255, 256, 257, 258, 512, 513]);
+    let name = ["lf", "crlf", "cr", "mixed", "mixed", "mixed-lf-heavy", "mixed"][style];
+    let final_break = u.bool();
+    let long_lines = u.ratio(1, 8);
+    let mut t = Vec::new();
+    // tiles: a block of per-line bytes is drawn, then reused with rotation so
+    // that many lines cost little entropy
+    let block: Vec<u8> = u.bytes(nlines.min(96));
+    let rot = u.below(7) + 1;
+    for i in 0..nlines {
+        let b = if block.is_empty() { 0 } else { block[i % block.len()].rotate_left(((i / block.len()) * rot) as u32 % 8) };
+        let mut len = LENS[(b & 7) as usize];
+        if long_lines && b & 0xC0 == 0xC0 {
+            len = 13 + (b as usize * 7) % 288;
+        }
+        for j in 0..len {
+            t.push(if (b as usize + j) % 5 == 0 { b' ' } else { b'a' });
+        }
+        if i + 1 == nlines && !final_break {
+            break;
+        }
+        let k = (b >> 3) & 3;
+        match style {
+            0 => t.push(b'\n'),
+            1 => t.extend_from_slice(b"\r\n"),
+            2 => t.push(b'\r'),
+            5 => match k {
+                0 => t.push(b'\r'),
+                1 => t.extend_from_slice(b"\r\n"),
+                _ => t.push(b'\n'),
+            },
+            _ => match k {
+                0 | 3 => t.push(b'\n'),
+                1 => t.extend_from_slice(b"\r\n"),
+                _ => t.push(b'\r'),
+            },
+        }
+    }
+    (t, name)
+}
+
+/// `[` + text with letters turned into spaces + `]`: a valid JSON document (an
+/// empty array with whitespace) that has the same break structure.
+fn json_form(text: &[u8]) -> Vec<u8> {
+    let mut v = Vec::with_capacity(text.len() + 2);
+    v.push(b'[');
+    v.extend(text.iter().map(|&b| if b == b'a' { b' ' } else { b }));
+    v.push(b']');
+    v
+}
+
+/// Every non-empty line becomes a comment line (`#` + the rest of the line),
+/// empty lines stay empty: a valid (empty) YAML stream with the same breaks.
+fn yaml_form(text: &[u8]) -> Vec<u8> {
+    let mut v = Vec::with_capacity(text.len());
+    let mut at_line_start = true;
+    for &b in text {
+        if b == b'\n' || b == b'\r' {
+            v.push(b);
+            at_line_start = true;
+        } else if at_line_start {
+            v.push(b'#');
+            at_line_start = false;
+        } else {
+            v.push(b);
+        }
+    }
+    v
+}
+
+struct HistFlags {
+    short_fwd: bool,
+    long_fwd: bool,
+    backward: bool,
+    repeat: bool,
+    step15: bool,
+    step16: bool,
+    step17: bool,
+    past_end: bool,
+    huge: bool,
+}
+
+fn offset_in_line(u: &mut Src, starts: &[usize], len: usize, line: usize) -> usize {
+    let s = starts[line];
+    let e = if line + 1 < starts.len() { starts[line + 1] } else { len.max(s + 1) };
+    match u.below(4) {
+        0 => s,
+        1 => e - 1,
+        _ => u.range(s, e - 1),
+    }
+}
+
+fn gen_history(u: &mut Src, starts: &[usize], len: usize, route: Route, nq: usize) -> (Vec<Query>, HistFlags) {
+    let nl = starts.len();
+    let mut q = Vec::with_capacity(nq);
+    let mut f = HistFlags { short_fwd: false, long_fwd: false, backward: false, repeat: false, step15: false, step16: false, step17: false, past_end: false, huge: false };
+    // the line and offset of the previous to_line_column query (what the cache holds)
+    let mut last: Option<(usize, usize)> = None;
+    let push_lc = |q: &mut Vec<Query>, f: &mut HistFlags, last: &mut Option<(usize, usize)>, off: usize, rt: bool| {
+        let line = model_line_of(starts, off);
+        if let Some((pl, po)) = *last {
+            if off == po {
+                f.repeat = true;
+            } else if off < po {
+                f.backward = true;
+            } else {
+                let d = line - pl;
+                if (1..=15).contains(&d) {
+                    f.short_fwd = true;
+                }
+                if d >= 17 {
+                    f.long_fwd = true;
+                }
+                f.step15 |= d == 15;
+                f.step16 |= d == 16;
+                f.step17 |= d == 17;
+            }
+        }
+        if off >= len {
+            f.past_end = true;
+        }
+        *last = Some((line, off));
+        if rt && off < len {
+            q.push(Query::RoundTrip(off));
+        } else {
+            q.push(Query::ToLc(off));
+        }
+    };
+    while q.len() < nq {
+        let cur = last.map(|x| x.0).unwrap_or(0);
+        let rt = u.ratio(1, 4);
+        match u.below(24) {
+            0 | 1 => {
+                // exact repeat / same line
+                let off = match last {
+                    Some((_, po)) if u.bool() => po,
+                    _ => offset_in_line(u, starts, len, cur),
+                };
+                push_lc(&mut q, &mut f, &mut last, off, rt);
+            }
+            2..=6 => {
+                // short forward walk: a run of steps of 1..=15 lines
+                let steps = u.range(1, 6);
+                let mut c = cur;
+                for _ in 0..steps {
+                    let d = if u.ratio(1, 4) { 15 } else { u.range(1, 15) };
+                    c = (c + d).min(nl - 1);
+                    let off = offset_in_line(u, starts, len, c);
+                    push_lc(&mut q, &mut f, &mut last, off, false);
+                }
+            }
+            7 | 8 => {
+                let d = *u.pick(&[15usize, 16, 16, 17, 17, 18]);
+                let c = (cur + d).min(nl - 1);
+                let off = if u.bool() { starts[c] } else { offset_in_line(u, starts, len, c) };
+                push_lc(&mut q, &mut f, &mut last, off, rt);
+            }
+            9 => {
+                let c = (cur + u.range(18, 200)).min(nl - 1);
+                let off = offset_in_line(u, starts, len, c);
+                push_lc(&mut q, &mut f, &mut last, off, rt);
+            }
+            10..=12 => {
+                // backward jump (to an earlier line, the same line's earlier byte, or the start)
+                let c = match u.below(4) {
+                    0 => 0,
+                    1 => cur.saturating_sub(1),
+                    2 => cur.saturating_sub(u.range(1, 20)),
+                    _ => u.range(0, cur),
+                };
+                let off = offset_in_line(u, starts, len, c);
+                push_lc(&mut q, &mut f, &mut last, off, rt);
+            }
+            13 | 14 => {
+                let off = u.range(0, len + 2);
+                push_lc(&mut q, &mut f, &mut last, off, rt);
+            }
+            15 => {
+                let off = match u.below(6) {
+                    0 => len.saturating_sub(1),
+                    1 => len,
+                    2 => len + 1,
+                    _ => len + u.range(0, 100),
+                };
+                push_lc(&mut q, &mut f, &mut last, off, false);
+            }
+            16 => {
+                let off = *u.pick(&[u32::MAX as usize - 1, u32::MAX as usize, u32::MAX as usize + 1, u32::MAX as usize + 77, usize::MAX - 1, usize::MAX, 1usize << 40]);
+                f.huge = true;
+                push_lc(&mut q, &mut f, &mut last, off, false);
+            }
+            17..=20 => {
+                // to_offset: line from {0, valid, last, last+1, far, huge}; column from {0, 1, in line, last, one past, far, huge}
+                let line = match u.below(8) {
+                    0 => 0,
+                    1 => nl,
+                    2 => nl + 1,
+                    3 => nl + u.range(2, 1000),
+                    4 => *u.pick(&[u32::MAX as usize, u32::MAX as usize + 1, usize::MAX]),
+                    _ => u.range(1, nl),
+                };
+                let (s, e) = if (1..=nl).contains(&line) {
+                    (starts[line - 1], if line < nl { starts[line] } else { len })
+                } else {
+                    (0, 10)
+                };
+                let width = e.saturating_sub(s);
+                let col = match u.below(10) {
+                    0 => 0,
+                    1 => 1,
+                    2 => width,
+                    3 => width + 1,
+                    4 => width + 2,
+                    5 => len.saturating_sub(s) + u.range(0, 3),
+                    6 => width + u.range(2, 5000),
+                    7 => {
+                        f.huge = true;
+                        *u.pick(&[u32::MAX as usize, u32::MAX as usize + 1, usize::MAX - 1, usize::MAX, usize::MAX - s, (usize::MAX - s).saturating_add(1), (usize::MAX - s).saturating_add(2)])
+                    }
+                    _ => u.range(1, width.max(1)),
+                };
+                q.push(Query::ToOff(line, col));
+            }
+            21 | 22 if route == Route::Line => {
+                let line = match u.below(6) {
+                    0 => 0,
+                    1 => nl,
+                    2 => nl + 1,
+                    3 => *u.pick(&[nl + 500, u32::MAX as usize, usize::MAX]),
+                    _ => u.range(1, nl),
+                };
+                q.push(Query::LineStart(line));
+            }
+            23 if route == Route::Line => q.push(Query::LineCount),
+            _ => {
+                let c = (cur + 1).min(nl - 1);
+                let off = starts[c];
+                push_lc(&mut q, &mut f, &mut last, off, rt);
+            }
+        }
+    }
+    (q, f)
+}
+
+// ---------------------------------------------------------------- system under test
+
+enum Sut {
+    Line(LineIndex),
+    Json(JsonIndex, Vec<u8>),
+    Yaml(YamlIndex, Vec<u8>),
+}
+
+impl Sut {
+    fn to_lc(&self, off: usize) -> (usize, usize) {
+        match self {
+            Sut::Line(i) => i.to_line_column(off),
+            Sut::Json(i, t) => i.to_line_column(off, t),
+            Sut::Yaml(i, t) => i.to_line_column(off, t),
+        }
+    }
+    fn to_off(&self, l: usize, c: usize) -> Option<usize> {
+        match self {
+            Sut::Line(i) => i.to_offset(l, c),
+            Sut::Json(i, t) => i.to_offset(l, c, t),
+            Sut::Yaml(i, t) => i.to_offset(l, c, t),
+        }
+    }
+}
+
+fn qjson(q: &Query) -> Value {
+    match q {
+        Query::ToLc(o) => json!({"op": "to_line_column", "offset": o}),
+        Query::ToOff(l, c) => json!({"op": "to_offset", "line": l, "column": c}),
+        Query::RoundTrip(o) => json!({"op": "round_trip", "offset": o}),
+        Query::LineStart(l) => json!({"op": "line_start", "line": l}),
+        Query::LineCount => json!({"op": "line_count"}),
+    }
+}
+
+fn route_name(r: Route) -> &'static str {
+    match r {
+        Route::Line => "LineIndex",
+        Route::Json => "JsonIndex",
+        Route::Yaml => "YamlIndex",
+    }
+}
+
+/// Run `queries` against one instance built from `doc` (the text actually indexed).
+/// Returns Ok(false) if the route could not be built (YAML parse error).
+pub fn run_history(route: Route, doc: &[u8], queries: &[Query], sweep: bool, st: &mut Stats) -> Result<bool, Fail> {
+    let starts = model_starts(doc);
+    let len = doc.len();
+    let sut = match route {
+        Route::Line => Sut::Line(LineIndex::build(doc)),
+        Route::Json => Sut::Json(JsonIndex::build(doc), doc.to_vec()),
+        Route::Yaml => match YamlIndex::build(doc) {
+            Ok(i) => Sut::Yaml(i, doc.to_vec()),
+            Err(_) => return Ok(false),
+        },
+    };
+    let rn = route_name(route);
+    let mut deferred: Option<Fail> = None;
+    let ctx = |i: usize, q: &Query| {
+        let lo = i.saturating_sub(6);
+        json!({"route": rn, "text": show_bytes(doc), "text_len": len, "query_index": i, "query": qjson(q),
+               "previous_queries": queries[lo..i].iter().map(qjson).collect::<Vec<_>>()})
+    };
+    for (i, q) in queries.iter().enumerate() {
+        match q {
+            Query::ToLc(off) => {
+                let Some(exp) = model_to_lc(&starts, *off) else {
+                    // column 2^64 is not representable: no answer to compare with
+                    st.class("skipped-unrepresentable-column");
+                    continue;
+                };
+                let act = sut.to_lc(*off);
+                st.evals(1);
+                check_eq!(format!("C12/{}/to_line_column", rn), exp, act, {"case": ctx(i, q)});
+            }
+            Query::RoundTrip(off) => {
+                let exp = model_to_lc(&starts, *off).unwrap();
+                let act = sut.to_lc(*off);
+                check_eq!(format!("C12/{}/to_line_column", rn), exp, act, {"case": ctx(i, q)});
+                let back = sut.to_off(act.0, act.1);
+                st.evals(2);
+                check_eq!(format!("C12/{}/round-trip", rn), Some(*off), back, {"case": ctx(i, q)});
+            }
+            Query::ToOff(l, c) => {
+                let exp = model_to_offset(&starts, len, *l, *c);
+                let overflow_shape = (1..=starts.len()).contains(l) && *c >= 1 && starts[*l - 1].checked_add(*c).is_none();
+                st.evals(1);
+                if overflow_shape {
+                    // start + column does not fit in usize; the documented answer is None
+                    st.class("to_offset-start+column-overflows-usize");
+                    let act = catch(|| sut.to_off(*l, *c));
+                    let ok = matches!(act, Ok(None));
+                    if !ok {
+                        let shape = match &act {
+                            Ok(_) => "wrapped-some",
+                            Err(_) => "panic",
+                        };
+                        // deferred: the rest of the history is still checked (any other
+                        // disagreement wins); this failure is returned at the end
+                        if deferred.is_none() {
+                            deferred = Some(Fail::new(
+                                format!("C12/to_offset/start+column-overflows-usize/{}", shape),
+                                json!({"case": ctx(i, q), "expected": "None", "actual": format!("{:?}", act)}),
+                            ));
+                        }
+                    }
+                } else {
+                    let act = sut.to_off(*l, *c);
+                    check_eq!(format!("C12/{}/to_offset", rn), exp, act, {"case": ctx(i, q)});
+                }
+            }
+            Query::LineStart(l) => {
+                if let Sut::Line(ix) = &sut {
+                    let exp = if *l >= 1 { starts.get(*l - 1).copied() } else { None };
+                    st.evals(1);
+                    check_eq!("C12/LineIndex/line_start", exp, ix.line_start(*l), {"case": ctx(i, q)});
+                }
+            }
+            Query::LineCount => {
+                if let Sut::Line(ix) = &sut {
+                    st.evals(2);
+                    check_eq!("C12/LineIndex/line_count", starts.len(), ix.line_count(), {"case": ctx(i, q)});
+                    check_eq!("C12/LineIndex/text_len", len, ix.text_len(), {"case": ctx(i, q)});
+                }
+            }
+        }
+    }
+    if sweep {
+        // every offset, then every offset backwards in strides, on the same (now warm) instance
+        let sweep_ctx = |o: usize, dir: &str| json!({"route": rn, "text": show_bytes(doc), "text_len": len, "sweep": dir, "offset": o, "after_queries": queries.len()});
+        for o in 0..len + 2 {
+            let exp = model_to_lc(&starts, o).unwrap();
+            let act = sut.to_lc(o);
+            check_eq!(format!("C12/{}/sweep-forward/to_line_column", rn), exp, act, {"case": sweep_ctx(o, "forward")});
+            if o < len {
+                check_eq!(format!("C12/{}/sweep-forward/round-trip", rn), Some(o), sut.to_off(act.0, act.1), {"case": sweep_ctx(o, "forward")});
+            }
+        }
+        let mut o = len + 1;
+        loop {
+            let exp = model_to_lc(&starts, o).unwrap();
+            check_eq!(format!("C12/{}/sweep-backward/to_line_column", rn), exp, sut.to_lc(o), {"case": sweep_ctx(o, "backward")});
+            // interleave a forward probe so the cache alternates
+            let p = (o + 37).min(len + 1);
+            let expp = model_to_lc(&starts, p).unwrap();
+            check_eq!(format!("C12/{}/sweep-backward/to_line_column", rn), expp, sut.to_lc(p), {"case": sweep_ctx(p, "backward-probe")});
+            if o < 3 {
+                break;
+            }
+            o -= 3;
+        }
+        st.evals(2 * (len as u64 + 2) + 2 * (len as u64 / 3 + 1));
+    }
+    if let Some(f) = deferred {
+        return Err(f);
+    }
+    Ok(true)
+}
+
+fn gen_case(u: &mut Src, max_lines: usize) -> (Case, HistFlags) {
+    let (text, style) = gen_text(u, max_lines);
+    let route = match u.below(8) {
+        0 => Route::Json,
+        1 => Route::Yaml,
+        _ => Route::Line,
+    };
+    let doc = doc_for(route, &text);
+    let starts = model_starts(&doc);
+    let nq = u.range(20, 90);
+    let (queries, flags) = gen_history(u, &starts, doc.len(), route, nq);
+    let sweep = doc.len() <= 3000 && u.ratio(1, 6);
+    (Case { text, route, queries, style, sweep }, flags)
+}
+
+fn doc_for(route: Route, text: &[u8]) -> Vec<u8> {
+    match route {
+        Route::Line => text.to_vec(),
+        Route::Json => json_form(text),
+        Route::Yaml => yaml_form(text),
+    }
+}
+
+fn has_crlf_and_lone_cr(t: &[u8]) -> (bool, bool, bool) {
+    let (mut crlf, mut cr, mut lf) = (false, false, false);
+    let mut i = 0;
+    while i < t.len() {
+        if t[i] == b'\r' {
+            if i + 1 < t.len() && t[i + 1] == b'\n' {
+                crlf = true;
+                i += 2;
+                continue;
+            }
+            cr = true;
+        } else if t[i] == b'\n' {
+            lf = true;
+        }
+        i += 1;
+    }
+    (crlf, cr, lf)
+}
+
+fn describe(c: &Case) -> Value {
+    json!({"route": route_name(c.route), "text_hex": hex(&c.text), "text": show_bytes(&c.text), "indexed_document": "LineIndex: text; JsonIndex: '[' + text with a->space + ']'; YamlIndex: first byte of each non-empty line -> '#'",
+           "queries": c.queries.iter().map(qjson).collect::<Vec<_>>(), "then_full_sweep": c.sweep})
+}
+
+/// Structured replay: {"route": "LineIndex"|"JsonIndex"|"YamlIndex", "text": "...", "queries": [{op,..}]}
+fn replay_input(v: &Value) -> Option<Fail> {
+    let inp = &v["input"];
+    let text: Vec<u8> = if let Some(h) = inp["text_hex"].as_str() { unhex(h) } else { inp["text"].as_str().unwrap_or("").as_bytes().to_vec() };
+    let route = match inp["route"].as_str().unwrap_or("LineIndex") {
+        "JsonIndex" => Route::Json,
+        "YamlIndex" => Route::Yaml,
+        _ => Route::Line,
+    };
+    let num = |x: &Value| -> usize {
+        x.as_u64().map(|n| n as usize).or_else(|| x.as_str().and_then(|s| s.parse::<usize>().ok())).unwrap_or(0)
+    };
+    let mut qs = vec![];
+    for q in inp["queries"].as_array().cloned().unwrap_or_default() {
+        match q["op"].as_str().unwrap_or("") {
+            "to_line_column" => qs.push(Query::ToLc(num(&q["offset"]))),
+            "round_trip" => qs.push(Query::RoundTrip(num(&q["offset"]))),
+            "to_offset" => qs.push(Query::ToOff(num(&q["line"]), num(&q["column"]))),
+            "line_start" => qs.push(Query::LineStart(num(&q["line"]))),
+            "line_count" => qs.push(Query::LineCount),
+            _ => {}
+        }
+    }
+    let doc = doc_for(route, &text);
+    let mut st = Stats::default();
+    match catch(|| run_history(route, &doc, &qs, inp["then_full_sweep"].as_bool().unwrap_or(false), &mut st)) {
+        Ok(Ok(_)) => None,
+        Ok(Err(f)) => Some(f),
+        Err((loc, msg)) => Some(Fail::new(format!("panic@{}", panic_sig(&loc)), json!({"panic": msg, "location": loc}))),
+    }
+}
 
 pub fn run(cx: &mut Ctx) {
-    cx.infra("check not built");
+    cx.assume("reference model: forward byte scan into a Vec<usize> of line starts + binary search on that Vec (harness code)");
+    cx.assume("to_line_column(offset) whose column would be 2^64 (offset usize::MAX on a one-line text) has no representable answer and is not compared");
+    cx.assume("JsonIndex/YamlIndex routes use trivially valid documents ('[ whitespace ]', comment lines) with the generated break structure; the text passed to every call is the indexed text");
+    for (name, v) in cx.replays.clone() {
+        if v["kind"] == "input" {
+            let r = replay_input(&v);
+            cx.replay_outcome(&name, r);
+        }
+    }
+    let max_lines = if cx.tier == Tier::Quick { 800 } else { 20_000 };
+    cx.check(
+        "history-vs-naive-scan",
+        RULE,
+        Budget { quick: 1_500_000, thorough: 40_000_000, max_len: 900 },
+        |u, st| {
+            let (c, f) = gen_case(u, max_lines);
+            let doc = doc_for(c.route, &c.text);
+            let starts = model_starts(&doc);
+            let nl = starts.len();
+            let (crlf, cr, lf) = has_crlf_and_lone_cr(&doc);
+            let nt = nl >= 20 && crlf && cr && f.short_fwd && f.long_fwd && f.backward;
+            if nt {
+                let mut h = hash_bytes(&doc);
+                for q in &c.queries {
+                    h = mix64(h ^ hash_str(&qjson(q).to_string()));
+                }
+                st.nontrivial(h);
+            }
+            st.class_if(nt, "nontrivial");
+            st.class(&format!("route-{}", route_name(c.route)));
+            st.class(&format!("style-{}", c.style));
+            st.class_if(doc.is_empty(), "empty-text");
+            st.class_if(crlf && cr && lf, "all-three-break-kinds");
+            st.class_if(nl >= 20, "lines>=20");
+            st.class_if(nl > 256, "lines>256");
+            st.class_if(doc.last().map_or(false, |&b| b == b'\n' || b == b'\r'), "trailing-break");
+            st.class_if(doc.first().map_or(false, |&b| b == b'\n' || b == b'\r'), "leading-break");
+            st.class_if(f.short_fwd, "hist-forward-1..15-lines");
+            st.class_if(f.step15, "hist-forward-exactly-15");
+            st.class_if(f.step16, "hist-forward-exactly-16");
+            st.class_if(f.step17, "hist-forward-exactly-17");
+            st.class_if(f.long_fwd, "hist-forward->=17-lines");
+            st.class_if(f.backward, "hist-backward");
+            st.class_if(f.repeat, "hist-exact-repeat");
+            st.class_if(f.past_end, "hist-offset-past-end");
+            st.class_if(f.huge, "hist-huge-values");
+            st.class_if(c.sweep, "full-sweep-after-history");
+            st.size(doc.len());
+            let cls = if nt { "nontrivial" } else if c.route != Route::Line { "wrapper-route" } else { "other" };
+            st.sample(cls, || json!({"route": route_name(c.route), "style": c.style, "lines": nl, "text_len": doc.len(), "text_head": show_bytes(&doc[..doc.len().min(60)]), "queries": c.queries.len(), "first_queries": c.queries.iter().take(5).map(qjson).collect::<Vec<_>>()}));
+            st.describe(|| describe(&c));
+            let built = run_history(c.route, &doc, &c.queries, c.sweep, st)?;
+            if !built {
+                st.class("yaml-build-error");
+                st.discard();
+            } else if c.route == Route::Yaml {
+                st.class("yaml-built");
+            }
+            Ok(())
+        },
+    );
+    for cl in ["nontrivial", "hist-forward-exactly-15", "hist-forward-exactly-16", "hist-forward-exactly-17", "hist-backward", "hist-exact-repeat", "hist-offset-past-end", "hist-huge-values", "all-three-break-kinds", "lines>256", "route-JsonIndex", "yaml-built", "trailing-break", "leading-break", "empty-text", "full-sweep-after-history"] {
+        cx.require_class("history-vs-naive-scan", cl, 20);
+    }
 }
